@@ -406,9 +406,11 @@ pub fn run(args: &[String]) {
         mc_core::ensure_dir(&dir);
         let path = dir.join(format!("c01-isolated-{isolated}.json"));
         std::fs::write(&path, serde_json::to_string(&json!({"property": "C01", "case": case})).unwrap()).unwrap();
+        // /proc/self/exe still names this binary when the file was replaced by a rebuild meanwhile
         let out = std::process::Command::new(std::env::current_exe().unwrap())
             .args(["C01", "--replay", path.to_str().unwrap()])
             .output()
+            .or_else(|_| std::process::Command::new("/proc/self/exe").args(["C01", "--replay", path.to_str().unwrap()]).output())
             .unwrap_or_else(|e| mc_core::machinery_error(&format!("cannot spawn isolated replay: {e}")));
         let stderr = String::from_utf8_lossy(&out.stderr);
         match out.status.code() {
